@@ -1015,3 +1015,88 @@ Proof.
   eapply Permutation_NoDup. apply Permutation_map, levels_from_dfs.
   now apply levels_nodup.
 Qed.
+
+(** * Further public routes: filtered enumerations, block-restricted overloads, more filter constructors *)
+Theorem sections_is_depth1 : forall f t, Section_findSections f 1 t = Ok (Section_sections f t).
+Proof. exact findSections_one. Qed.
+
+Lemma flat_map_filter_single : forall {A} (f : A -> bool) l, flat_map (fun r => filter f [r]) l = filter f l.
+Proof.
+  induction l as [|x l IH]. reflexivity.
+  cbn [flat_map]. rewrite IH. cbn [filter]. destruct (f x); reflexivity.
+Qed.
+
+Theorem file_sections_is_depth1 : forall f roots, File_findSections f 1 roots = Ok (File_sections f roots).
+Proof.
+  intros. rewrite file_findSections_spec by (unfold two64; lia). change (Z.to_nat 1) with 1%nat.
+  unfold File_sections, getEntities. rewrite <- flat_map_filter_single. apply f_equal. apply flat_map_ext. intros r.
+  cbn [levels_from]. now rewrite app_nil_r.
+Qed.
+
+Theorem sources_is_depth1 : forall f t, Source_findSources f 1 t = Ok (filter f [t] ++ Source_sources f t).
+Proof.
+  intros. rewrite findSources_bfs by (unfold two64; lia). change (Z.to_nat 1) with 1%nat.
+  rewrite levels_from_single. cbn [levels_from]. rewrite app_nil_r. cbn [filter].
+  unfold Source_sources, getEntities. destruct (f t); reflexivity.
+Qed.
+
+Theorem block_sources_is_depth0 : forall f b, Block_findSources f 0 (b_sources b) = Ok (Block_sources f b).
+Proof.
+  intros. rewrite block_findSources_spec by (unfold two64; lia). change (Z.to_nat 0) with 0%nat.
+  unfold Block_sources, getEntities. rewrite <- flat_map_filter_single. apply f_equal. apply flat_map_ext. intros r.
+  cbn [levels_from]. now rewrite app_nil_r.
+Qed.
+
+Theorem referring_whole_file_is_per_block : forall f sec_id,
+  Section_referringDataArrays f sec_id = flat_map (fun b => Section_referringDataArrays_in f sec_id (Some b)) (f_blocks f) /\
+  Section_referringTags f sec_id = flat_map (fun b => Section_referringTags_in f sec_id (Some b)) (f_blocks f) /\
+  Section_referringMultiTags f sec_id = flat_map (fun b => Section_referringMultiTags_in f sec_id (Some b)) (f_blocks f).
+Proof. intros. repeat split. Qed.
+
+Theorem referring_in_exact : forall f sec_id ob, height_ok (f_sections f) ->
+  In sec_id (map tid (flat_map all_nodes (f_sections f))) ->
+  Section_referringDataArrays_in f sec_id ob = spec_ref_ents_block b_arrays sec_id ob /\
+  Section_referringTags_in f sec_id ob = spec_ref_ents_block b_tags sec_id ob /\
+  Section_referringMultiTags_in f sec_id ob = spec_ref_ents_block b_mtags sec_id ob.
+Proof.
+  intros f sec_id [b|] Hh Hin; [|repeat split].
+  unfold Section_referringDataArrays_in, Section_referringTags_in, Section_referringMultiTags_in, spec_ref_ents_block,
+         Block_dataArrays, Block_tags, Block_multiTags, getEntities, EntMetadataFilter.
+  repeat split; apply filter_ext; intros e; now apply MetadataFilter_exact.
+Qed.
+
+Theorem SourceMetadataFilter_exact : forall roots sec_id s, height_ok roots ->
+  In sec_id (map tid (flat_map all_nodes roots)) -> SourceMetadataFilter roots sec_id s = spec_meta_filter sec_id s.
+Proof. intros. unfold SourceMetadataFilter, spec_meta_filter. now apply MetadataFilter_exact. Qed.
+
+Theorem referring_sources_in_exact : forall f sec_id ob, height_ok (f_sections f) ->
+  (forall b, ob = Some b -> height_ok (b_sources b)) ->
+  In sec_id (map tid (flat_map all_nodes (f_sections f))) ->
+  exists r, Section_referringSources_opt f sec_id ob = Ok r /\ Permutation r (spec_ref_sources_block sec_id ob).
+Proof.
+  intros f sec_id [b|] Hh Hb Hin; [|exists []; split; constructor].
+  unfold Section_referringSources_opt, Section_referringSources_in, spec_ref_sources_block.
+  destruct (block_search_all (fun s => MetadataFilter (f_sections f) sec_id (n_meta (label s))) (b_sources b)) as (r & -> & Hp).
+  { now apply Hb. }
+  exists r. split; [reflexivity|].
+  rewrite (filter_ext _ (spec_meta_filter sec_id)) in Hp; [assumption|].
+  intros s. unfold spec_meta_filter. now apply MetadataFilter_exact.
+Qed.
+
+Theorem source_referring_is_enumeration : forall b src_id,
+  Source_referringDataArrays b src_id = Block_dataArrays (SourceFilter src_id) b /\
+  Source_referringTags b src_id = Block_tags (SourceFilter src_id) b /\
+  Source_referringMultiTags b src_id = Block_multiTags (SourceFilter src_id) b.
+Proof. intros. repeat split. Qed.
+
+Lemma prefix_refl : forall s, String.prefix s s = true.
+Proof. induction s as [|c s IH]; cbn. reflexivity. destruct (ascii_dec c c); [assumption|congruence]. Qed.
+
+Lemma contains_refl : forall s, contains s s = true.
+Proof. intros s. destruct s; cbn [contains]; now rewrite prefix_refl. Qed.
+
+(** an exact type match is also a loose (case-insensitive substring) match *)
+Theorem TypeFilter_implies_loose : forall ty e, TypeFilter ty e = true -> TypeFilterLoose ty e = true.
+Proof.
+  intros ty e He. unfold TypeFilter in He. apply String.eqb_eq in He. unfold TypeFilterLoose. rewrite He. apply contains_refl.
+Qed.
